@@ -66,7 +66,8 @@ TSnap == /\ IsEv("Snap") /\ SnapMatches
          /\ S' = [S EXCEPT !.log = <<>>] /\ sil' = 0 /\ lastop' = "snap" /\ open' = FALSE /\ UNCHANGED <<prog, nctl>>
 \* in the driver nothing runs between a snapshot, the control call and the tick of the same step
 Silent(A) == open /\ A /\ sil < MaxSilent /\ sil' = sil + 1 /\ l <= Len(Log) /\ UNCHANGED <<l, open>> /\ Compatible(S'.log, l)
-TDeliver == Silent(Deliver)
+\* "deferred": a notification is delivered in a later pass than the one in which it was queued (it has seen a tick)
+TDeliver == S.q # <<>> /\ Head(S.q).age >= 1 /\ Silent(Deliver)
 TFire == Silent(LeafCompletes)
 TTimeout == Silent(ActionTimeout)
 TNext == TProg \/ TReset \/ TCtl \/ TTick \/ TSnap \/ TDeliver \/ TFire \/ TTimeout
